@@ -12,6 +12,7 @@ import AnyVecModel.Proofs.KernelInsert
 import AnyVecModel.Proofs.KernelPush
 import AnyVecModel.Proofs.KernelClear
 import AnyVecModel.Proofs.KernelConsume
+import AnyVecModel.Proofs.KernelApiOps
 namespace AnyVec
 namespace C01
 open World
@@ -248,6 +249,39 @@ theorem consume_is_the_source (w : World) (h : Handle) :
       hConsume h w = (do let slot ← hSlot h
                          KernelTie.runCmds (KernelTie.hCtx h) (Gen.Kernel.swap_remove_consume_cmds slot last)) w) :=
   ⟨KernelTie.pop_consume_tie h, KernelTie.remove_consume_tie h, fun s g last hk => KernelTie.swap_remove_consume_tie w h s g last hk⟩
+
+/-- **source tie**: the erased and the typed API functions of `/repo/src/any_vec.rs` and `/repo/src/any_vec_typed.rs` make,
+on this run, exactly these calls in this order with these integer arguments: the checked `push`/`insert` run
+`type_check` before the unchecked operation; `remove`/`swap_remove` (erased and typed) run `index_check(index)` before
+the handle is constructed with the same `index`; `pop` answers `None` on `len == 0` without constructing anything;
+`drain`/`splice` convert the range against `len` first; the typed functions wrap / unwrap the value around the same
+raw operations. An out-of-range removal is refused with the source's message in the unchanged world, and `pop` on an
+empty vector is `None` in the unchanged world. -/
+theorem api_wrappers_are_the_source (cfg : Cfg) (w : World) (v i : Nat) (k : Sink) (d : VecSt)
+    (hv : w.vecs[v]? = some d) (hl : d.live = true) (s e : Nat) :
+    (Gen.Kernel.anyvec_push_trace d.len i = [.call "type_check" [], .call "push_unchecked" []] ∧
+     Gen.Kernel.anyvec_insert_trace d.len i = [.call "type_check" [], .call "insert_unchecked" [i]] ∧
+     Gen.Kernel.anyvec_remove_trace d.len i = [.call "index_check" [i], .call "Remove::new" [i], .call "TempValue::new" []] ∧
+     Gen.Kernel.anyvec_swap_remove_trace d.len i =
+       [.call "index_check" [i], .call "SwapRemove::new" [i], .call "TempValue::new" []] ∧
+     Gen.Kernel.typed_push_trace d.len i = [.call "AnyValueWrapper::new" [], .call "push_unchecked" []] ∧
+     Gen.Kernel.typed_insert_trace d.len i = [.call "AnyValueWrapper::new" [], .call "insert_unchecked" [i]] ∧
+     Gen.Kernel.typed_remove_trace d.len i =
+       [.call "index_check" [i], .call "Remove::new" [i], .call "TempValue::new" [], .call "downcast_unchecked" []] ∧
+     Gen.Kernel.typed_swap_remove_trace d.len i =
+       [.call "index_check" [i], .call "SwapRemove::new" [i], .call "TempValue::new" [], .call "downcast_unchecked" []] ∧
+     Gen.Kernel.anyvec_drain_trace d.len i s e = [.call "into_range" [d.len], .call "Drain::new" [s, e], .call "ops::Iter" []] ∧
+     Gen.Kernel.anyvec_clear_trace d.len i = [.call "clear" []] ∧ Gen.Kernel.typed_clear_trace d.len i = [.call "clear" []]) ∧
+    (¬ i < d.len → ∃ m, KernelTie.firstPanic (Gen.Kernel.raw_index_check_trace d.len i) = some m ∧
+      step cfg (.remove v i k) w = WM.panic m w ∧ step cfg (.swapRemove v i k) w = WM.panic m w ∧
+      step cfg (.tremove v i) w = WM.panic m w ∧ step cfg (.tswapRemove v i) w = WM.panic m w) ∧
+    (d.len = 0 → step cfg (.pop v k) w = (w, .ok ["N"]) ∧ step cfg (.tpop v) w = (w, .ok ["N"])) := by
+  have a := KernelTie.anyvec_ops_tie d.len i s e
+  have t := KernelTie.typed_ops_tie d.len i s e
+  refine ⟨⟨a.1, a.2.1, a.2.2.2.1, a.2.2.2.2.1, t.1, t.2.1, t.2.2.2.1, t.2.2.2.2.1, a.2.2.2.2.2.1, a.2.2.2.2.2.2.2,
+    t.2.2.2.2.2.2.2⟩, ?_, ?_⟩
+  · intro hi; exact KernelTie.remove_reject_tie cfg w v i k d hv hl hi
+  · intro h0; exact (KernelTie.pop_empty_tie cfg w v k d hv hl h0).2
 
 end C01
 end AnyVec
